@@ -181,3 +181,69 @@ def run_all(cases):
     with mp.get_context('fork').Pool(lib.NPROC) as pool:
         res = pool.map(_work, chunks)
     return [x for r in res for x in r]
+
+
+def run(tier, seed):
+    t0 = time.time()
+    from .. import gen_setters
+    progs, notes, changed = gen_setters.generate()
+    undisciplined = [sid for sid, ir in progs if not gen_setters.disciplined(ir)]
+    build = lib.build_and_audit(PROP)
+    build.gen_status = (build.gen_status or '') + '; gen_setters: ' + ('rewritten' if changed else 'unchanged')
+    findings = lib.Findings(PROP)
+    broken = []
+    cases = gen_cases(tier, seed)
+    if undisciplined:
+        # an obligation no longer checks: look harder at the setters concerned
+        rnd = random.Random(seed + 19)
+        sh = fresh()
+        tg = targets(sh)
+        for sid in undisciplined:
+            for key in [k for k in tg if k.endswith(sid) or k == sid]:
+                for _ in range(1500):
+                    cases.append((key, mutate(rnd, rnd.choice(tg[key][2]))))
+                for v in tg[key][2]:
+                    for extra in ['!foo', ' !foo', '@import "bad.css";', 'x:y !z']:
+                        cases.append((key, v + extra))
+                        cases.append((key, extra))
+    res = run_all(cases)
+    counts = {}
+    n_raised = 0
+    for (sid, text), (k, why) in res:
+        counts.setdefault(sid, {}).setdefault(k, 0)
+        counts[sid][k] += 1
+        if k == 'RAISED':
+            n_raised += 1
+        if k in ('RAISED-CHANGED', 'CRASH', 'HARNESS'):
+            findings.add(k.lower(), '%s = %r' % (sid, text), why)
+    if undisciplined:
+        inv = {v: k for k, v in notes['fields'].items()}
+        for sid in undisciplined:
+            ir = dict(progs)[sid]
+            r = gen_setters.py_run(ir, [])[1] or []
+            broken.append('obligation per_setter: the IR regenerated for %s may raise after changing %s' % (
+                sid, ','.join(sorted(set(inv[f] for f in r)))))
+    if notes['unsupported']:
+        broken.append('translator: unsupported constructs: %s' % notes['unsupported'][:5])
+    coverage = {
+        'evaluations': len(res),
+        'distinct_nontrivial': len(set(cases)),
+        'rule': 'IR regenerated from the Python AST of 26 text setters (cssText of every rule kind, of the sheet, of '
+                'declaration blocks and properties; selectorText; mediaText; name/value/priority; encoding; prefix; '
+                'namespaceURI); validation: 28 setter sites (incl. rules nested in @media) x invalid texts from valid ones '
+                '(14 bad tails, 15 wrong-kind texts, truncation, token deletion/insertion, undeclared prefix) on a sheet '
+                'with every rule kind; raised => fingerprint (object fields, sub-object identity and text, owning sheet '
+                'text/rule types/namespaces/encoding) unchanged',
+        'traces_validated_against_impl': len(res),
+        'exhaustive': False,
+        'distribution': {'raised': n_raised, 'per_setter': counts, 'ir_sizes': notes['sizes']},
+        'classification': {k: v for k, v in notes.items() if k not in ('sizes',)},
+        'samples': [repr(cases[i]) for i in (1, len(cases) // 2, len(cases) - 1)],
+        'correspondence_mismatches': 0,
+        'oracle_failures': len(findings.new),
+    }
+    assumptions = ['the classification tables of harness/gen_setters.py (pure helpers, raising helpers, reject-or-commit '
+                   'operations, parsing attributes, object stores of the commit phase, commit-phase calls)',
+                   'callees of the `call` kind raise before they change anything (each is itself one of the 26 setters, or '
+                   'insertRule/deleteRule/add whose reject-unchanged behaviour is C07)']
+    return lib.finish(PROP, tier, seed, t0, build, findings, coverage, assumptions, broken)
